@@ -84,3 +84,9 @@ Theorem C02_fstring_nested_str_value : forall start s, In start full_quotes -> F
   exists txt, str_candidate start s = Some txt /\ lits_value txt s.
 Proof. exact str_candidate_value. Qed.
 Print Assumptions C02_fstring_nested_str_value.
+(* ... and for a bytes constant nested in an f-string field (f_string.Bytes): b-prefixed literals whose decoded bytes
+   (Model/StrDecode.v decb: the bytes-literal rules, compared with CPython by leg D) concatenate to the original bytes *)
+Theorem C02_fstring_nested_bytes_value : forall start s, In start full_quotes -> Forall byte_val s ->
+  exists txt, bytes_candidate start s = Some txt /\ lits_value_bytes txt s.
+Proof. exact bytes_candidate_value. Qed.
+Print Assumptions C02_fstring_nested_bytes_value.
